@@ -49,6 +49,7 @@ func init() {
 			}
 			fs.Raw("readyCloseSites", "none", "unknown", where)
 			fs.Raw("wake", "none", "unknown", where)
+			fs.Raw("idSource", "none", "unknown", where)
 		}
 		f, err := Load(c14LockPath)
 		if err != nil {
@@ -191,6 +192,45 @@ func c14Lock(fs *Facts, f *File, unknownAll func(string)) {
 		unl = No
 	}
 	fs.Tri("unlockRemoves", unl, c14Where(f, unlockFn))
+
+	// where caller ids come from: uuid.NewString() in Lock (globally unique) or a per-queue counter
+	idAssigns, counterAssign := 0, false
+	ast.Inspect(f.AST, func(n ast.Node) bool {
+		as, ok := n.(*ast.AssignStmt)
+		if !ok {
+			return true
+		}
+		for i, l := range as.Lhs {
+			if sel, ok := l.(*ast.SelectorExpr); ok && sel.Sel.Name == "id" {
+				idAssigns++
+				if i < len(as.Rhs) && strings.HasPrefix(f.Str(as.Rhs[i]), "strconv.Format") {
+					counterAssign = true
+				}
+			}
+		}
+		return true
+	})
+	uuids := f.Calls(lockFn, "uuid.NewString")
+	litOK := false
+	ast.Inspect(lockFn, func(n ast.Node) bool {
+		if cl, ok := n.(*ast.CompositeLit); ok && f.Str(cl.Type) == "caller" {
+			for _, e := range cl.Elts {
+				if f.Str(e) == "id: lockID" {
+					litOK = true
+				}
+			}
+		}
+		return true
+	})
+	uuidAssigned := f.Contains(lockFn, "lockID = uuid.NewString()") || f.Contains(lockFn, "lockID := uuid.NewString()")
+	switch {
+	case len(uuids) == 1 && uuidAssigned && litOK && idAssigns == 0 && len(f.Calls(f.AST, "uuid.NewString")) == 1:
+		fs.Raw("idSource", "(some true)", "uuid", c14Where(f, uuids[0]))
+	case len(uuids) == 0 && counterAssign && idAssigns == 1:
+		fs.Raw("idSource", "(some false)", "perQueueCounter", c14Where(f, enq))
+	default:
+		fs.Raw("idSource", "none", "unknown", c14Where(f, lockFn))
+	}
 }
 
 func c14Gateway(fs *Facts) {
